@@ -23,6 +23,7 @@ type c12sCase struct {
 	HeaderMid string `json:"mid_header"`
 	Extra     string `json:"extra_header,omitempty"`
 	PeerRole  string `json:"peer_role"`
+	SendOnly  bool   `json:"send_only,omitempty"` // the handler was created send-only: every proposal is deferred
 }
 
 func c12sTokens() []string {
@@ -88,7 +89,7 @@ func c12sRun(c c12sCase) (class, detail string) {
 		core.Infra("%v", err)
 	}
 	defer sb.Close()
-	h := mailbox.NewDirHandler(sb.MBox, false)
+	h := mailbox.NewDirHandler(sb.MBox, c.SendOnly)
 	h.Prepare()
 	before := sandbox.Snapshot(sb.Root, sb.MBox)
 	// the remote's message: well formed, but its Mid header is the hostile string
@@ -164,6 +165,10 @@ func C12Session(args []string) {
 	}
 	for _, mid := range []string{"../../a", "../../aa", "../../../a", "../../pwn", "..\\..\\a", "a/../../../a", "../../outside/target"} {
 		cases = append(cases, c12sCase{Proposed: mid, HeaderMid: "NORMALMID001", PeerRole: "master"}, c12sCase{Proposed: mid, HeaderMid: "NORMALMID001", PeerRole: "slave"}, c12sCase{Proposed: mid, HeaderMid: mid, PeerRole: "slave"})
+	}
+	// a send-only handler defers every proposal: whatever it notes about them stays inside the mailbox
+	for _, mid := range append(append([]string{}, hostile[:600]...), "../../a", "../../aa", "../../../a", "../../pwn", "..\\..\\a", "a/../../../a", "../../outside/target", "../../outside/in/target") {
+		cases = append(cases, c12sCase{Proposed: mid, HeaderMid: "NORMALMID001", PeerRole: "master", SendOnly: true}, c12sCase{Proposed: mid, HeaderMid: "NORMALMID001", PeerRole: "slave", SendOnly: true})
 	}
 	specials := []string{"", strings.Repeat("a", 300), "ü", "/etc/x", "~", "a/../../../../../../x", "..\\..\\pwn", "../../../../../../../../tmp/c12-absolute-escape", "a\x00b", "../\x00"}
 	for _, hm := range append(append([]string{}, hostile[:600]...), specials...) {
